@@ -183,7 +183,10 @@ def accEnum (cfg : Cfg) (env : Env) : Nat → Item → List (Str × RTy) → JVa
             | some var =>
               if var.unitLike then 0
               else if var.shape = .named then accNamed cfg env f σ (Serde.renameAllS it var) var.fields kvs
-              else 3
+              else match var.fields with
+                -- a newtype variant: the field's type reads the object without the tag
+                | [fld] => accTy cfg env f (RTy.subst σ fld.ty) (.obj (kvs.filter fun kv => kv.1 ≠ t))
+                | _ => 3
             | none => 3)
           | _ => 3)
         | _ => 3
